@@ -704,7 +704,7 @@ func c16ArbitrationCase(t *rapid.T, c *vk.Case, handle framework.Handle, opt c16
 			prio := int32(rapid.SampledFrom([]int{0, 0, 5000, 9000}).Draw(t, "podPrio"))
 			maxCost := rapid.IntRange(0, 19).Draw(t, "podMaxCost") == 0
 			terminating := rapid.IntRange(0, 24).Draw(t, "podTerminating") == 0
-			forced := opt.evictAnnotated && rapid.IntRange(0, 4).Draw(t, "podEvictAnnotated") == 0
+			forced := opt.evictAnnotated && rapid.IntRange(0, 9).Draw(t, "podEvictAnnotated") == 0
 			p := w.newPod(wl, ns, node, ready, prio, maxCost)
 			if forced {
 				p.Annotations[c16EvictAnnotation] = "true"
